@@ -52,6 +52,36 @@ pub fn run(k: &str, c: &Value) -> Value {
             };
             json!({"src": src, "resampled": resv, "simplified": simp})
         }
+        "c05.sweep" => {
+            // many counts on one curve: vertex count and end points only
+            let n3 = c["dim"].as_u64().unwrap() == 3;
+            let counts = uss(&c["counts"]);
+            let mut out = Vec::new();
+            if n3 {
+                let curve = match Curve3::from_points(&p3s(&c["pts"]), fx(&c["tol"])) { Ok(c) => c, Err(_) => return json!({"err": true}) };
+                for n in counts {
+                    let cc = curve.clone();
+                    let m = if c["max"].as_bool().unwrap() { Resample::ByMaxSpacing(curve.length() / (n as f64)) } else { Resample::ByCount(n) };
+                    out.push(match std::panic::catch_unwind(std::panic::AssertUnwindSafe(|| cc.resample(m))) {
+                        Ok(r) => json!({"n": r.points().len(), "first": hp3(&r.points()[0]), "last": hp3(r.points().last().unwrap()), "length": hx(r.length())}),
+                        Err(_) => json!({"panic": true}) });
+                }
+                let p = curve.points();
+                json!({"out": out, "first": hp3(&p[0]), "last": hp3(p.last().unwrap()), "length": hx(curve.length())})
+            } else {
+                let curve = match Curve2::from_points(&p2s(&c["pts"]), fx(&c["tol"]), false) { Ok(c) => c, Err(_) => return json!({"err": true}) };
+                for n in counts {
+                    let cc = curve.clone();
+                    let m = if c["max"].as_bool().unwrap() { Resample::ByMaxSpacing(curve.length() / (n as f64)) } else { Resample::ByCount(n) };
+                    out.push(match std::panic::catch_unwind(std::panic::AssertUnwindSafe(|| cc.resample(m))) {
+                        Ok(Ok(r)) => json!({"n": r.points().len(), "first": hp2(&r.points()[0]), "last": hp2(r.points().last().unwrap()), "length": hx(r.length())}),
+                        Ok(Err(_)) => json!({"err": true}),
+                        Err(_) => json!({"panic": true}) });
+                }
+                let p = curve.points();
+                json!({"out": out, "first": hp2(&p[0]), "last": hp2(p.last().unwrap()), "length": hx(curve.length())})
+            }
+        }
         "c05.rdp" => {
             let pts = p2s(&c["pts"]);
             let r = ramer_douglas_peucker(&pts, fx(&c["e"]));
